@@ -323,6 +323,11 @@ type caseSpec struct {
 	Faults    []string `json:"faults"`
 	Shards    int      `json:"shards"`
 	Lifetime  bool     `json:"conn_lifetime,omitempty"`
+	// PartialView: slots of the batch that had no owner when the client learnt the topology (they are assigned by the time
+	// the batch is issued). PickRefresh is MEASURED: the nodes received CLUSTER SLOTS / SHARDS after the call started and
+	// before anything of the batch, i.e. the client could not place the batch in its view and refreshed first.
+	PartialView []int `json:"slots_unassigned_in_client_view,omitempty"`
+	PickRefresh bool  `json:"picked_after_refresh,omitempty"`
 	Pipelined bool     `json:"always_pipelining"`
 	Transport bool     `json:"-"`
 	seed      int64
@@ -341,12 +346,20 @@ type world struct {
 }
 
 func newWorld(shards int, seed int64, lifetime time.Duration, chunk bool, always bool) (*world, error) {
+	return newWorldPre(shards, seed, lifetime, chunk, always, nil)
+}
+
+// newWorldPre: pre (if any) arranges the cluster before the client connects and learns the topology.
+func newWorldPre(shards int, seed int64, lifetime time.Duration, chunk bool, always bool, pre func(*fakeredis.Server)) (*world, error) {
 	w := &world{}
 	for i := 0; i < shards; i++ {
 		w.prims = append(w.prims, fmt.Sprintf("10.3.%d.1:7000", i+1))
 	}
 	w.srv = fakeredis.New(fakeredis.Options{Seed: seed, LogReplies: true, ChunkWrites: chunk}, w.prims...)
 	w.srv.EnableCluster()
+	if pre != nil {
+		pre(w.srv)
+	}
 	opt := drv.Option(w.srv, w.prims[0])
 	opt.ConnLifetime = lifetime
 	opt.AlwaysPipelining = always // false: an idle connection serves a call synchronously, without the background reader / writer
@@ -793,6 +806,9 @@ func evaluate(run *mon.Run, spec *caseSpec, items []item, nres int, events []fak
 					continue
 				}
 				run.Observe("blocks_with_redirected_member", 1)
+				if spec.PickRefresh {
+					run.Observe("blocks_with_redirected_member_after_pick_refresh", 1)
+				}
 				found := false
 				for _, v := range a.units[ui+1:] {
 					if unitBlock[v] == b && v.Node == addr && len(v.Members) > 0 && (kind == "MOVED" || v.Asking) {
@@ -803,6 +819,9 @@ func evaluate(run *mon.Run, spec *caseSpec, items []item, nres int, events []fak
 					run.Violation("block-not-resent-whole", fkey(kind), wit(map[string]any{"unit": u.String(), "redirected_member": u.Members[j], "reply": r.S}))
 				} else if found {
 					run.Observe("blocks_resent_whole_on_"+strings.ToLower(kind), 1)
+					if spec.PickRefresh {
+						run.Observe("blocks_resent_whole_after_pick_refresh", 1)
+					}
 				}
 				break
 			}
@@ -943,6 +962,9 @@ func evaluate(run *mon.Run, spec *caseSpec, items []item, nres int, events []fak
 			run.Observe("results_checked", 1)
 			if len(hs) > 1 {
 				run.Observe("results_of_resent_commands_checked", 1)
+				if spec.PickRefresh {
+					run.Observe("results_of_resent_commands_checked_after_pick_refresh", 1)
+				}
 			}
 			if it.Note == "ask" {
 				run.Observe("ask_members_own_reply_after_target_connection_died", 1)
@@ -975,24 +997,97 @@ func nBucket(n int) string {
 	return "31-60"
 }
 
-// oneCase runs one real-time case in its own world.
-func oneCase(run *mon.Run, spec caseSpec) {
+// prepareCase builds the world and the batch of a real-time case (a pure function of spec.seed and spec.Kind).
+//
+// Partial view (a quarter of the generated batches, decided by a stream of its own so that the other dimensions of the
+// case list do not depend on it): a non-empty subset of the batch's slots has no owner while the client connects and
+// learns the topology; the slots are assigned (to their former owner or to another primary) before the batch is
+// issued. The client then cannot place the batch in its view, refreshes the topology and picks again; every other
+// hostile condition of the case comes on top of that.
+func prepareCase(spec *caseSpec) (*world, []item, error) {
 	rng := rand.New(rand.NewSource(spec.seed))
 	spec.Shards = 2 + rng.Intn(5)
 	spec.Pipelined = rng.Intn(2) == 0
-	w, err := newWorld(spec.Shards, spec.seed, 0, rng.Intn(2) == 0, spec.Pipelined)
+	chunk := rng.Intn(2) == 0
+	mixed := spec.Kind == "DoMulti" && spec.Shards >= 3 && rng.Intn(6) == 0
+	var items []item
+	var pre func(*fakeredis.Server)
+	owners := map[int]string{}
+	pv := rand.New(rand.NewSource(spec.seed ^ 0x7061727469616c))
+	if !mixed {
+		items = genBatch(rng, spec)
+		if pv.Intn(4) == 0 {
+			seen := map[int]bool{}
+			var slots []int
+			for _, it := range items {
+				if it.UID != "" && !seen[it.Slot] {
+					seen[it.Slot] = true
+					slots = append(slots, it.Slot)
+				}
+			}
+			sort.Ints(slots)
+			keep := slots[pv.Intn(len(slots))] // at least this one
+			for _, s := range slots {
+				if s == keep || pv.Intn(2) == 0 {
+					spec.PartialView = append(spec.PartialView, s)
+				}
+			}
+			pre = func(srv *fakeredis.Server) {
+				for _, s := range spec.PartialView {
+					owners[s] = srv.SlotOwner(s)
+					srv.SetSlotOwner(s, s, "")
+				}
+			}
+		}
+	}
+	w, err := newWorldPre(spec.Shards, spec.seed, 0, chunk, spec.Pipelined, pre)
+	if err != nil {
+		return nil, nil, err
+	}
+	for _, s := range spec.PartialView {
+		to := owners[s]
+		if pv.Intn(2) == 0 {
+			to = w.otherThan(pv, to)
+		}
+		w.srv.SetSlotOwner(s, s, to)
+	}
+	if mixed {
+		items = w.genMixedRedirect(rng, spec)
+	} else {
+		w.injectFaults(rng, spec, items)
+		if len(spec.PartialView) > 0 {
+			spec.Faults = append(spec.Faults, "partial-view")
+			sort.Strings(spec.Faults)
+		}
+	}
+	return w, items, nil
+}
+
+// pickedAfterRefresh: did the nodes receive a topology query after the call started and before anything of the batch?
+func pickedAfterRefresh(events []fakeredis.Event) bool {
+	for _, e := range events {
+		if e.Kind != "recv" || len(e.Argv) == 0 {
+			continue
+		}
+		switch name := strings.ToUpper(e.Argv[0]); {
+		case name == "CLUSTER" && len(e.Argv) > 1 && (strings.EqualFold(e.Argv[1], "SLOTS") || strings.EqualFold(e.Argv[1], "SHARDS")):
+			return true
+		case name == "MULTI" || name == "EXEC" || name == "ASKING" || uidOf(e.Argv) != "":
+			return false
+		}
+	}
+	return false
+}
+
+// oneCase runs one real-time case in its own world.
+func oneCase(run *mon.Run, spec caseSpec) {
+	w, items, err := prepareCase(&spec)
 	if err != nil {
 		run.Inconclusive("client setup failed: " + err.Error())
 		return
 	}
 	defer w.close()
-	var items []item
-	if spec.Kind == "DoMulti" && spec.Shards >= 3 && rng.Intn(6) == 0 {
-		items = w.genMixedRedirect(rng, &spec)
-	} else {
-		items = genBatch(rng, &spec)
-		w.injectFaults(rng, &spec, items)
-	}
+	from := w.srv.LogLen()
 	var nres int
 	var pnc any
 	stuck := false
@@ -1023,14 +1118,27 @@ func oneCase(run *mon.Run, spec caseSpec) {
 		run.Violation("panic", fmt.Sprintf("rt|%s|%s", spec.Kind, firstLine(fmt.Sprint(pnc))), map[string]any{"case": spec, "panic": fmt.Sprint(pnc)})
 		return
 	}
-	evaluate(run, &spec, items, nres, w.srv.Log(), "rt")
+	events := w.srv.Log()
+	if len(spec.PartialView) > 0 {
+		run.Observe("batches_with_slots_unassigned_in_client_view", 1)
+	}
+	if spec.PickRefresh = pickedAfterRefresh(events[from:]); spec.PickRefresh {
+		run.Observe("batches_picked_after_refresh", 1)
+		if spec.Kind == "DoMultiCache" {
+			run.Observe("cache_batches_picked_after_refresh", 1)
+		}
+		if spec.Blocks > 0 {
+			run.Observe("batches_with_blocks_picked_after_refresh", 1)
+		}
+	}
+	evaluate(run, &spec, items, nres, events, "rt")
 	run.Case(fp, spec.N > 1 && (len(spec.Faults) > 0 || spec.Slots > 1 || spec.Blocks > 0))
 	run.Sample(spec)
 }
 
 func TestC20(t *testing.T) {
 	run := mon.Start(t, "C20", "exploration",
-		"one fresh fake cluster (2-6 primaries) and client per case; DoMulti batches of 1-60 uid-carrying commands over 1-16 slots with 0-3 MULTI...EXEC blocks (blocks: one slot) and DoMultiCache batches of 1-60 cached GETs over 1-16 slots; 0-3 hostile conditions per case among stale topology (genuine MOVED), slots in migration with some keys moved (genuine ASK), scripted MOVED / ASK / TRYAGAIN / LOADING on random members (inside blocks too) and a connection dying at a random member before or after executing it; "+
+		"one fresh fake cluster (2-6 primaries) and client per case; DoMulti batches of 1-60 uid-carrying commands over 1-16 slots with 0-3 MULTI...EXEC blocks (blocks: one slot) and DoMultiCache batches of 1-60 cached GETs over 1-16 slots; 0-3 hostile conditions per case among stale topology (genuine MOVED), slots in migration with some keys moved (genuine ASK), scripted MOVED / ASK / TRYAGAIN / LOADING on random members (inside blocks too) and a connection dying at a random member before or after executing it; a quarter of these batches are issued while some of their slots are missing from the client's view of the topology (unassigned when it connected, assigned since), so that the batch is placed only after a topology refresh; "+
 			"plus virtual-time cases with ConnLifetime expiring in the middle of a batch; a case = (call, size bucket, slots, blocks, fault set) and is non-trivial when it has several commands and a fault, several slots or a block")
 	defer run.Finish()
 	run.Assume("a scripted error reply flags an open transaction on the fake node like a rejected command does in Redis (EXEC answers EXECABORT)",
@@ -1067,5 +1175,6 @@ func TestC20(t *testing.T) {
 	lifetimeCases(run, t)
 	run.Require("results_checked", "exec_arrays_checked", "units_complete", "blocks_resent_whole_on_moved", "blocks_resent_whole_on_ask", "plain_redirects_followed",
 		"results_of_resent_commands_checked", "units_cut_by_connection_end", "transport_errors_returned", "lifetime_expired_mid_batch",
-		"ask_members_own_reply_after_target_connection_died")
+		"ask_members_own_reply_after_target_connection_died",
+		"batches_picked_after_refresh", "blocks_resent_whole_after_pick_refresh")
 }
